@@ -2,5 +2,5 @@
 # checks beyond the listed properties (not in MANIFEST.json)
 cd "$(dirname "$0")/.." || exit 2
 rc=0
-for x in X01 X02 X03; do ./check $x "$@" || rc=$?; done
+for x in X01 X02 X03 X04 X05; do ./check $x "$@" || rc=$?; done
 exit $rc
